@@ -15,11 +15,14 @@ def replay(c):
     d = common.scratch_dir("verif-r4-")
     try:
         ir = front.compile_module(c["module"], c["import_dirs"], d)
-        src, entries = structs.write_driver(ir, c["module"], d)
+        src, entries = structs.write_driver(ir, c["module"], d, align=c.get("align", 1))
         nparams = len(c["params"])
         call = "%s(p, n%s)" % (c["fn"], "".join(", a[%d]" % i for i in range(nparams)))
         main = os.path.join(d, "main.cc")
         body = c01.REPLAY_MAIN
+        if c.get("align", 1) > 1:
+            body = body.replace("static_cast<unsigned char*>(malloc(n ? n : 1))",
+                                "static_cast<unsigned char*>(aligned_alloc(64, ((n + 63) / 64 + 1) * 64))")
         if c.get("null"):
             body = body.replace("unsigned long long r = (unsigned long long)CALL;",
                                 "free(p); p = nullptr; unsigned long long r = (unsigned long long)CALL;").replace("  free(p);\n  return 0;", "  return 0;")
@@ -44,8 +47,9 @@ def replay(c):
 def run(rep, tier):
     mods = struct_check.corpus()
     if tier == "quick":
-        mods = [m for m in mods if m[0] in c01.QUICK_MODULES[:6] or not m[0].startswith("testdata/")]
-    results = struct_check.run_corpus(struct_check.check_module_c04, {"nmax": 16 if tier == "quick" else 40}, mods)
+        mods = [m for m in mods if m[0] in c01.QUICK_MODULES[:6] + ["testdata/alignments.emb"] or not m[0].startswith("testdata/")]
+    results = struct_check.run_corpus(struct_check.check_module_c04,
+                                      {"nmax": 16 if tier == "quick" else 40, "aligns": (4,) if tier == "quick" else (4, 8)}, mods)
     out = {"structures": 0, "queries": 0, "replayed": 0, "entry_point_runs": 0, "obligation_sites_by_kind": {},
            "witnesses": 0, "modules": len(results), "not_encoded": [], "outside_claim": []}
     seen = {}
